@@ -7,21 +7,21 @@ CLAIMED = {
     # id: (text, note, technique, design_ref)
     'C05': ("Contracts on the real validate_native/validate_string chains and enforcement points; every clause is a VC "
             "generated from the current source by symbolic execution of the function's AST and discharged by z3 for all "
-            "values and all facet customisations at once.",
+            "values and all facet customisations at once. DateTime / Date / Time validate_native proved with symbolic calendar fields against 13 bound configurations (ordering model of the time types); a complex argument with inherited occurrence constraints goes through all seven protocols.",
             "pyvc engine, z3; facets integer-valued; dispatch closed-world; see evidence.assumptions",
             "contract-based deductive verification: VCs from the Python AST of the live functions, z3/cvc5",
             "DESIGN.md section 4 C05"),
     'C13': ("Loop-invariant proof (z3, unbounded) of the bounded body reader for all limits, block sizes, declared lengths "
             "and stream behaviours; PEP 3333 obligations as ghost-trace VCs over every path of the real handle_rpc / "
             "handle_error / handle_wsdl_request / __finalize bodies with the user function, the client (abort) and the "
-            "request kind havocked.",
+            "request kind havocked. Also: a raising wsgi_close / method_context_closed listener does not make the context close twice under the server's mandatory close(); the constructor stores every max_content_length >= 0 and block_length > 0 unchanged (symbolic, 0 means 0).",
             "wsgi.input.read(n) returns <= n bytes; WSGI server calls close(); listeners return; concrete one-method app",
             "contract-based deductive verification: inductive invariant + per-path ghost-trace VCs from the live AST, z3",
             "DESIGN.md section 4 C13"),
     'C14': ("Event-trace contract (specification automaton) checked on every symbolic path of the real request pipeline "
             "(WsgiApplication.__call__ and everything below it, interpreted from the working tree) with a fork at every "
             "havocked party: request kind x single failing listener (Fault / non-Fault, application/service/method level) "
-            "x user-function outcome, for seven protocol families.",
+            "x user-function outcome, for seven protocol families. A second event manager on the same method is served like the first, and service / method managers see every event of the call from method_call on.",
             "listeners of exception/closed events return normally; one context per request; see evidence.assumptions",
             "contract-based verification: per-path ghost-trace VCs over the interpreted real pipeline (havocked callees fork)",
             "DESIGN.md section 4 C14"),
@@ -29,21 +29,21 @@ CLAIMED = {
             "fault code string and every fault class, for each output protocol; fault serialisers proved to carry code and "
             "message verbatim; funnel/identity/no-leak obligations as per-path VCs over the real process_request / "
             "handle_error / serialize bodies with the user function and listeners havocked (Fault, non-Fault of several "
-            "shapes), responses decoded by reference decoders.",
+            "shapes), responses decoded by reference decoders. Bounded: 14 hostile message texts (markup, entities, CDATA, blanks, non-BMP, 3000 characters) x 6 codes arrive unchanged over all seven protocols.",
             "z3 sequence theory for startswith/==; concrete representative faults in the pipeline part; traceback mode off",
             "contract-based deductive verification: VCs over z3 strings from the live AST + per-path trace VCs",
             "DESIGN.md section 4 C09"),
     'C11': ("Lookup contract of get_call_handles proved for an arbitrary (symbolic) requested name against a routing table "
             "with adversarially similar names (exact string equality => no near-miss match); per-operation contract of the "
             "routing-table insertion over all abstract pre-states; context generation; order independence and near-miss "
-            "requests through the real pipeline (bounded enumeration, labelled).",
+            "requests through the real pipeline (bounded enumeration, labelled). Proved as well: the dict-document method request string is '{tns}' + the key taken whole (symbolic key), and match_pattern selects a literal address pattern iff path and verb are exactly the registered ones (symbolic path, regex model incl. '$' before a final newline).",
             "z3 sequence theory for '{%s}%s' formatting and dict lookup by equality; concrete service sets",
             "contract-based deductive verification: VCs over z3 strings from the live AST; case analysis of pre-states",
             "DESIGN.md section 4 C11"),
     'C03': ("Unbounded proof of the sparse-to-contiguous index inserter _s2cmi over symbolic maps (rank-map invariant, "
             "inductive invariant over the set of visited keys, quantified VCs discharged by z3 with a Skolem inverse); the "
             "surrounding simple_dict_to_object / object_to_simple_dict round trip, the query-string parser and the "
-            "primitive response are bounded stand-ins (stated bounds, listed separately, not counted as proved).",
+            "primitive response are bounded stand-ins (stated bounds, listed separately, not counted as proved). Declared HTTP response headers (14 integer / text / date-time triples incl. zone conversions across day, month and year boundaries) carry the HTTP-date of the instant.",
             "dict iteration visits each key once; bounded parts: see evidence.coverage.bounded",
             "contract-based deductive verification (loop invariant over z3 arrays) + labelled bounded stand-ins",
             "DESIGN.md section 4 C03"),
@@ -51,7 +51,7 @@ CLAIMED = {
             "__init__ proved to store every parser flag unchanged (symbolic flags); every path of every "
             "create_in_document proved to hand each parse call a parser built in that call from exactly "
             "self.parser_kwargs (callee models of lxml's factory and parse entry points); no store to parser_kwargs on the "
-            "request path (frame hook). lxml honouring the flags is assumed and audited by a canary corpus (bounded).",
+            "request path (frame hook). lxml honouring the flags is assumed and audited by a canary corpus (bounded). The flow obligation covers the HTTP branches (text/xml, soap+xml, multipart/related, missing Content-Type, wrong verb); the canary corpus includes a 2000-deep nesting bomb, plain and as root part of a multipart request.",
             "lxml/libxml2 honour the parser flags (audited, not proved); bounded time/memory clause not decided",
             "contract-based deductive verification: configuration-flow VCs with callee models + frame hook",
             "DESIGN.md section 4 C17"),
@@ -70,7 +70,7 @@ CLAIMED = {
             "matching its pattern with unconstrained digit fields returns or raises a Client-family Fault -- stdlib calls "
             "are modelled with their documented raise-sets and every raising fork must be converted by the code around "
             "it. Structure level (bounded, labelled): the real pipeline on every value kind at every argument position, "
-            "25 XML mutations x 3 validators, every prefix truncation, byte-level and transport-level hostile inputs.",
+            "25 XML mutations x 3 validators, every prefix truncation, byte-level and transport-level hostile inputs. Also: NaN / sNaN / infinities, seven xsi:type malformations and 14 multipart/related (SwA) request forms.",
             "assumed raise-sets of int/float/Decimal/date/time/b64decode/unhexlify/UUID/strptime and of the "
             "lxml/json/yaml/msgpack parsers; regex match outcome forked where the pattern is not translated",
             "contract-based deductive verification: exceptional postconditions with may-raise callee models + bounded "
@@ -81,7 +81,7 @@ CLAIMED = {
             "with a class derived from the declared one, or ValidationError; scalar kind handlers (_ret_number, _ret_bool) "
             "proved over the complete partition of value kinds with a symbolic integer. Bounded (labelled): every value "
             "kind at every argument position for JSON/YAML/MessagePack, xsi:type retagging of 12 positions x 15 type names "
-            "x 3 validators through the real pipeline, xsi:nil values, wrapper-key substitution.",
+            "x 3 validators through the real pipeline, xsi:nil values, wrapper-key substitution. 126 odd literals of 12 primitive types over XML, SOAP and HttpRpc deliver a value of exactly the native type or nothing; the symbolic decoder obligations (C10 leaf) carry the same type clause for an arbitrary string.",
             "closed world for protocol handler tables; one verification interface; bounded parts listed in the evidence",
             "contract-based verification: case analysis over live class-hierarchy facts + labelled bounded enumeration",
             "DESIGN.md section 4 C04"),
@@ -90,7 +90,7 @@ CLAIMED = {
             "objects). Frame and evolution contracts over bounded histories (labelled): every sequence of one and two "
             "operations from a 15-operation alphabet (customize, child_attrs, child_attrs_all, variants of variants, Array, "
             "Mandatory, subclassing, append/insert_field incl. pending child attributes) over a 13-model pool, every model "
-            "snapshotted after every step against an expectation oracle written from the statement.",
+            "snapshotted after every step against an expectation oracle written from the statement. Explicit field positions (order=...) give the documented order for the class, its variants and subclasses under every set iteration order (interpreted metaclass, order adversary; hash-seed replay).",
             "histories bounded to length 2 (each operation is checked to preserve every other model, which extends to any "
             "sequence by induction only for the observed attributes); registries _variants/_subclasses whitelisted",
             "contract-based deductive verification of result contracts (z3) + labelled bounded history enumeration",
@@ -99,7 +99,7 @@ CLAIMED = {
             "arguments and every positional/keyword call form (the user function receives exactly the given values, incl. "
             "falsy ones; the call returns what the function returned). Result unwrapping checked relationally (bounded, "
             "labelled): 22 calls over 12 signatures and all body styles compared with the same call over the JsonDocument "
-            "wire path decoded by the documented conventions; auxiliary-method interplay.",
+            "wire path decoded by the documented conventions; auxiliary-method interplay. An Ignored return is delivered to the direct caller and is empty on the wire for wrapped / out_bare / bare styles x primitive / complex return types over JsonDocument, XmlDocument and Soap11.",
             "wire side compared through JsonDocument only (XmlDocument/Soap11 wire decoding is C01's)",
             "contract-based deductive verification of the packing loop (z3) + labelled bounded relational comparison",
             "DESIGN.md section 4 C18"),
@@ -119,7 +119,7 @@ CLAIMED = {
             "(labelled): requests built by an independent reference encoder for 6 generated signatures with boundary "
             "values through the real XmlDocument/Soap11/Soap12 pipeline x {None, soft, lxml} (user function invoked once "
             "with equal values; response read by an independent reference decoder denotes the returned value), SOAP "
-            "headers, and the Spyne client looped back onto the server.",
+            "headers, and the Spyne client looped back onto the server. Also bounded: 5 document encodings x declaration / charset parameter combinations deliver the exact text.",
             "lxml keeps order/text/attributes; the schema-driven third-party client clause is not decidable here (external "
             "program) -- C06's schema-truthfulness obligations are the in-family substitute",
             "contract-based deductive verification of occurrence lemmas (z3) + labelled bounded differential round trips",
@@ -130,7 +130,7 @@ CLAIMED = {
             "values (2**70, -2**63, 30-digit decimals, non-BMP text, empty containers) through the real pipeline of "
             "JSON/YAML/MessagePack x ignore_wrappers x complex_as {dict, list} x validator {None, soft} (MessagePack with "
             "str and bytes keys); the function is invoked once with equal values and the response read by an independent "
-            "reference decoder denotes the returned values.",
+            "reference decoder denotes the returned values. The polymorphic setting (subclass instances under a base, a customised variant or Array(base)) is checked with C16's marker round trips.",
             "json/yaml/msgpack wire (de)serialisers are lossless on their own value model; positional form for fully "
             "populated objects only (as the property states)",
             "contract-based deductive verification of integer handlers (z3) + labelled bounded differential round trips",
